@@ -198,7 +198,7 @@ class Ctx:
 class RepositoryMachine(Machine):
     pid = "C06"
     title = "Rate repository: last write wins per key, other keys untouched, no stray files"
-    quick_runs = 3000
+    quick_runs = 8000
     thorough_runs = 400000
     components_real = ["cherab.openadas.repository.* (14 add/update/get families)", "cherab.openadas.install (all install_adf*)",
                        "cherab.openadas.parse.adf11/12/15/21/22", "cherab.core.utility.RecursiveDict", "json"]
